@@ -3,6 +3,7 @@ package engines
 import (
 	"bytes"
 	"encoding/binary"
+	"encoding/gob"
 	"errors"
 	"fmt"
 	"io"
@@ -15,6 +16,8 @@ import (
 
 	"github.com/ozanh/ugo"
 	"github.com/ozanh/ugo/encoder"
+	ugojson "github.com/ozanh/ugo/stdlib/json"
+	ugotime "github.com/ozanh/ugo/stdlib/time"
 	"verif/sim"
 )
 
@@ -209,6 +212,101 @@ func c18Check(rc *sim.RunCtx, target int, data []byte, mm *ugo.ModuleMap, what s
 
 var errInjected = errors.New("injected read error")
 
+// c18WeirdObjects are encodings of objects a decoder may meet where it expects something else: zero-valued and
+// nil-field values of every gob-registered type, a nil interface, nested containers.
+var c18WeirdObjects = func() [][]byte {
+	var out [][]byte
+	gobObj := func(v ugo.Object) {
+		var b bytes.Buffer
+		b.WriteByte(255)
+		if err := gob.NewEncoder(&b).Encode(&v); err == nil {
+			out = append(out, b.Bytes())
+		}
+	}
+	gobObj(&ugojson.EncoderOptions{})
+	gobObj(&ugojson.RawMessage{})
+	gobObj(&ugotime.Time{})
+	gobObj(&ugo.ObjectPtr{})
+	gobObj(&ugo.RuntimeError{})
+	gobObj(&ugo.Error{})
+	gobObj(&ugo.SyncMap{})
+	{
+		// a gob stream carrying a nil interface value
+		var b bytes.Buffer
+		b.WriteByte(255)
+		var v ugo.Object
+		if err := gob.NewEncoder(&b).Encode(&v); err == nil {
+			out = append(out, b.Bytes())
+		}
+		out = append(out, []byte{255, 3, 16, 0, 0})
+	}
+	for _, o := range []ugo.Object{ugo.Undefined, ugo.True, ugo.Int(7), ugo.Uint(7), ugo.Char('x'), ugo.Float(1.5), ugo.Bytes{1}, ugo.Array{}, ugo.Map{}, ugo.String("s")} {
+		if m, err := encoder.Array(ugo.Array{o}).MarshalBinary(); err == nil && len(m) > 4 {
+			// strip the array wrapper: tag, size field (count byte + varint), length field (count byte + varint)
+			i := 1
+			i += 1 + int(m[i])
+			i += 1 + int(m[i])
+			if i < len(m) {
+				out = append(out, m[i:])
+			}
+		}
+	}
+	return out
+}()
+
+// c18Crafted derives structurally well-formed but semantically confused inputs from a valid encoding.
+func c18Crafted(v2 []byte, bc *ugo.Bytecode) [][]byte {
+	var out [][]byte
+	// 1. each top-level field's object replaced by each weird object
+	for _, field := range []byte{1, 2, 3} {
+		for _, w := range c18WeirdObjects {
+			in := append([]byte(nil), v2[:6]...)
+			in = append(in, field)
+			in = append(in, w...)
+			out = append(out, in)
+		}
+	}
+	// 2. the file-name slot of the first source file replaced by each weird object (hand-assembled file set)
+	lenField := func(n int) []byte {
+		b := make([]byte, 1+binary.MaxVarintLen64)
+		k := binary.PutVarint(b[1:], int64(n))
+		b[0] = byte(k)
+		return b[:k+1]
+	}
+	for _, w := range c18WeirdObjects {
+		var file []byte
+		file = append(file, w...)           // name
+		file = append(file, lenField(1)...) // base
+		file = append(file, lenField(10)...)
+		file = append(file, lenField(1)...) // one line
+		file = append(file, lenField(0)...)
+		var fs []byte
+		fs = append(fs, lenField(12)...) // set base
+		fs = append(fs, lenField(1)...)  // one file
+		fs = append(fs, lenField(len(file))...)
+		fs = append(fs, file...)
+		in := append([]byte(nil), v2[:6]...)
+		in = append(in, 0)
+		sz, _ := encoder.Int(len(fs)).MarshalBinary()
+		in = append(in, sz...)
+		in = append(in, fs...)
+		out = append(out, in)
+	}
+	// 3. names of builtin modules replaced by same-length names of source modules and of modules that do not exist
+	for _, pair := range [][2]string{{"host", "modA"}, {"host", "modB"}, {"json", "modA"}, {"time", "modC"}, {"host", "nope"}, {"strings", "modules"}} {
+		if i := bytes.Index(v2, []byte(pair[0])); i >= 0 {
+			c := append([]byte(nil), v2...)
+			for j := 0; j+len(pair[0]) <= len(c); j++ {
+				if string(c[j:j+len(pair[0])]) == pair[0] {
+					copy(c[j:], pair[1])
+				}
+			}
+			out = append(out, c)
+		}
+	}
+	return out
+}
+
 // c18LengthPatterns are well-formed length fields of the format (count byte + zig-zag varint) with extreme values,
 // plus malformed ones.
 var c18LengthPatterns = func() [][]byte {
@@ -333,6 +431,16 @@ func c18Run(rc *sim.RunCtx) {
 	extra := ugo.Array{ugo.Map{"e": &ugo.Error{Name: "N", Message: "m"}}, &ugo.SyncMap{Value: ugo.Map{"a": ugo.Int(1)}}, ugo.Bytes{1, 2}, ugo.Char('x'), ugo.Uint(7), ugo.Float(1.5)}
 	if ob, err := encoder.Array(extra).MarshalBinary(); err == nil {
 		inputs = append(inputs, c18Input{"object:gob-and-syncmap", []int{c18TargetObject, c18TargetStream}, ob})
+	}
+
+	// crafted inputs: type confusion (an object of another type where the format expects a particular one) and
+	// name confusion (a module name replaced by the name of a module of another kind)
+	crafted := c18Crafted(v2, bc)
+	for i, cd := range crafted {
+		for _, tg := range []int{c18TargetFrom, c18TargetUnm} {
+			c18Check(rc, tg, cd, mm, fmt.Sprintf("crafted input %d", i))
+			rc.Fault("crafted-type-or-name-confusion")
+		}
 	}
 
 	// control: every valid input decodes
@@ -528,7 +636,7 @@ func init() {
 		ID:    "C18",
 		Level: "fault_enumeration",
 		Rule: "programs = fixed corpus + tape-generated scripts; per program the valid encodings are: v2 bytecode, the v2 payload under a v1 header, a down-converted v1 program, " +
-			"the constants array, the main function and a gob/SyncMap object array. Enumeration runs apply EVERY truncation, EVERY offset × {^b, b+1, 0x00, 0xFF, one random bit} and EVERY byte that looks like a sized-type tag × 16 extreme length fields to each encoding and feed it to every applicable target " +
+			"the constants array, the main function and a gob/SyncMap object array. Enumeration runs apply EVERY truncation, EVERY offset × {^b, b+1, 0x00, 0xFF, one random bit} and EVERY byte that looks like a sized-type tag × 16 extreme length fields to each encoding, plus crafted type and name confusions (every top-level field and the file-name slot × zero-valued objects of every gob-registered type, a nil interface and scalars; builtin-module names replaced by names of source modules) and feed it to every applicable target " +
 			"(DecodeBytecodeFrom, Bytecode.UnmarshalBinary, DecodeObject); sampled runs apply double corruption, lost sector, misdirected write, garbage tail, truncation+corruption, 0xFF runs, lost and duplicated regions, extreme varint encodings, tag swaps, short reads and reader errors. " +
 			"evaluations = decode calls on faulted inputs; a run is non-trivial when it executed its whole fault list; distinct = distinct (program, batch) pairs.",
 		Assumptions: []string{
